@@ -161,24 +161,28 @@ func c18ItemToStr(c *Ctx, r *Report, f *FuncRef) {
 		if is.Else != nil || len(is.Body.List) != 1 {
 			return "", nil
 		}
-		as, ok := is.Body.List[0].(*ast.AssignStmt)
-		if !ok || as.Tok != token.ADD_ASSIGN || len(as.Lhs) != 1 {
-			return "", nil
-		}
-		s, ok := constString(cf.info, as.Rhs[0])
+		b, v, ok := textAppend(cf.info, is.Body.List[0])
 		if !ok {
 			return "", nil
 		}
-		return s, identObj(cf.info, as.Lhs[0])
+		s, ok := constString(cf.info, v)
+		if !ok {
+			return "", nil
+		}
+		return s, b
 	}
 	// the left-hand side of the item's own rule is part of the text, unconditionally
 	lhsOK := false
 	for _, st := range f.Decl.Body.List {
-		as, ok := st.(*ast.AssignStmt)
-		if !ok || len(as.Rhs) != 1 {
+		var val ast.Expr
+		if as, ok := st.(*ast.AssignStmt); ok && len(as.Rhs) == 1 {
+			val = as.Rhs[0]
+		} else if _, v, ok := textAppend(cf.info, st); ok {
+			val = v
+		} else {
 			continue
 		}
-		ast.Inspect(as.Rhs[0], func(n ast.Node) bool {
+		ast.Inspect(val, func(n ast.Node) bool {
 			if se, ok := n.(*ast.SelectorExpr); ok && fieldNamed(cf.info, se, "Name") {
 				if in, ok := cf.resolve(se.X).(*ast.SelectorExpr); ok && fieldNamed(cf.info, in, "LeftPart") && isOwnRule(in.X) {
 					lhsOK = true
@@ -229,14 +233,14 @@ func c18ItemToStr(c *Ctx, r *Report, f *FuncRef) {
 					inMarker, buf = markerOf(x)
 					dotAt = i
 				}
-			case *ast.AssignStmt:
-				if x.Tok == token.ADD_ASSIGN && len(x.Lhs) == 1 && cf.mentionsSel(x.Rhs[0], "Name", sym) && sym != nil {
+			case *ast.AssignStmt, *ast.ExprStmt:
+				if b, v, ok := textAppend(cf.info, s); ok && cf.mentionsSel(v, "Name", sym) && sym != nil {
 					if symAt < 0 {
 						symAt = i
 					}
 					if buf == nil {
-						buf = identObj(cf.info, x.Lhs[0])
-					} else if identObj(cf.info, x.Lhs[0]) != buf {
+						buf = b
+					} else if b != buf {
 						why = "marker and symbol text go to different buffers"
 					}
 				}
@@ -276,8 +280,16 @@ func c18ItemToStr(c *Ctx, r *Report, f *FuncRef) {
 		if why == "" {
 			ret := false
 			ast.Inspect(f.Decl.Body, func(n ast.Node) bool {
-				if rt, ok := n.(*ast.ReturnStmt); ok && rt.Pos() > rs.End() && len(rt.Results) == 1 && identObj(cf.info, rt.Results[0]) == buf {
-					ret = true
+				if rt, ok := n.(*ast.ReturnStmt); ok && rt.Pos() > rs.End() && len(rt.Results) == 1 {
+					if identObj(cf.info, rt.Results[0]) == buf {
+						ret = true
+					}
+					// a strings.Builder buffer is returned as buf.String()
+					if call, ok := unparen(rt.Results[0]).(*ast.CallExpr); ok && len(call.Args) == 0 {
+						if se, ok := unparen(call.Fun).(*ast.SelectorExpr); ok && se.Sel.Name == "String" && builderObj(cf.info, se.X) == buf && buf != nil {
+							ret = true
+						}
+					}
 				}
 				return true
 			})
@@ -890,4 +902,28 @@ func mentionsConst(c *Ctx, info *types.Info, e ast.Expr, name string) bool {
 		return !hit
 	})
 	return hit
+}
+
+// textAppend: the statement appends text to a buffer — `buf += v` on a string variable or `buf.WriteString(v)` on a
+// local strings.Builder.
+func textAppend(info *types.Info, st ast.Stmt) (types.Object, ast.Expr, bool) {
+	switch x := st.(type) {
+	case *ast.AssignStmt:
+		if x.Tok == token.ADD_ASSIGN && len(x.Lhs) == 1 && len(x.Rhs) == 1 {
+			if o := identObj(info, x.Lhs[0]); o != nil {
+				return o, x.Rhs[0], true
+			}
+		}
+	case *ast.ExprStmt:
+		if call, ok := unparen(x.X).(*ast.CallExpr); ok && len(call.Args) == 1 {
+			if fn := callee(info, call); fn != nil && fn.FullName() == "(*strings.Builder).WriteString" {
+				if se, ok := unparen(call.Fun).(*ast.SelectorExpr); ok {
+					if o := builderObj(info, se.X); o != nil {
+						return o, call.Args[0], true
+					}
+				}
+			}
+		}
+	}
+	return nil, nil, false
 }
